@@ -98,7 +98,9 @@ def main():
         meta["checks"] = results
     finally:
         sh("git checkout -- . && git clean -fdq -e target", cwd=EVAL_REPO)
-    print(json.dumps(meta, indent=1)[:6000])
+    for r in meta.get("checks", {}).values():
+        r["violations"] = r["violations"][:3]
+    print(json.dumps(meta, indent=1))
     if a.keep_as and meta["confirmed"]:
         d = Path("/verif/seeded") / a.keep_as
         d.mkdir(parents=True, exist_ok=True)
